@@ -30,6 +30,9 @@ fn decl_map(cssout: &str) -> BTreeMap<String, String> {
 }
 
 pub fn run(ctx: &Ctx) {
+    // the watchdog's clock also covers the harness's own oracle work (reference models, DOM enumeration);
+    // the limit is generous so that machine load cannot turn a slow case into a verdict
+    ctx.hang_limit_s.store(600, std::sync::atomic::Ordering::Relaxed);
     let n = V.len();
     // ---- the == / != matrices (one compile per row) --------------------------------------------
     let sub = "pairs";
